@@ -120,6 +120,15 @@ def run(ctx):
         if decode_num(e) != z:
             py += ' python-roundtrip-fails'
         cases.append(('num_enc %d' % z, py, True))
+    # numbers written in script text are script numbers too
+    for z in [0, 1, 16, 17, 75, 76, 127, 128, 200, 255, 256, 32767, 32768, 65535, 8388607, 8388608, 2**31 - 1] + [rng.randrange(17, 2**31) for _ in range(40)]:
+        try:
+            cm = Script.parse_str('%d OP_DROP' % z).commands[0]
+            py = hexp(cm) if isinstance(cm, bytes) else 'opcode:%r' % (cm,)
+        except Exception as e:
+            py = 'none'
+        ctx.count('number-in-script-text')
+        cases.append(('num_enc %d' % z, py, True))
     ctx.compare(cases, 'exhaustive')
     cases = []
     blobs = [b''] + [bytes([a]) for a in range(256)] + [bytes([a, b]) for a in range(256) for b in range(256)]
@@ -198,6 +207,26 @@ def run(ctx):
         strict = (not wf) or rng.random() < 0.5
         py = script_rt(cmds, strict)
         cases.append(('script_rt %s' % _cmds_str(cmds), py, wf and len(cmds) > 0))
+    # two scripts added: the bytes of the sum are the bytes of the parts, whichever accessor is used and whether or not the parts were
+    # serialised before
+    for _ in range(200 if T else 40):
+        ca, cb = gen_cmds(rng, wf=True, maxlen=5), gen_cmds(rng, wf=True, maxlen=5)
+        try:
+            sa, sb = Script(list(ca)), Script(list(cb))
+            want = sa.serialize() + sb.serialize()
+            xa, xb = Script(list(ca)), Script(list(cb))
+            if rng.random() < 0.5:
+                xa.as_bytes()
+            ssum = xa + xb
+            got = (ssum.as_bytes(), ssum.serialize(), bytes.fromhex(ssum.as_hex()))
+        except Exception as e:
+            ctx.count('script-add-refused:' + type(e).__name__)
+            continue
+        ctx.evals += 1
+        ctx.count('script-add')
+        if any(g != want for g in got):
+            ctx.violation('the bytes of a sum of two scripts are not the bytes of the parts', {'op': 'script_add %s + %s' % (_cmds_str(ca), _cmds_str(cb)),
+                          'as_bytes': got[0].hex(), 'serialize': got[1].hex(), 'expected': want.hex()})
     # the witnesses of the listed findings are always replayed
     for f in ctx.known:
         w = f.get('witness', {}).get('op', '')
